@@ -578,6 +578,21 @@ func c19Profile() *Profile {
 				}
 				g.UserDelegs = append(ud, [3]int64{0, 0, 10_000_000}, [3]int64{1, 0, 2_000_000})
 				script = c19Script(g.NumValidators)
+				if uni(t, "scriptKeepsMinimum", 2) == 0 {
+					// variant: one validator is outside the bonded set from the start; the selector holds the reporter's
+					// minimum with a bonded validator and more with the unbonded one, and never undelegates: once the
+					// reporter is over the (lowered) cap, every removal attempt by a third party must be refused
+					k := uni(t, "unbondedVal", g.NumValidators)
+					j := (k + 1 + uni(t, "bondedVal", g.NumValidators-1)) % g.NumValidators
+					g.ValTokens[k] = 1_000_000
+					g.MaxValidators = g.NumValidators - 1
+					g.UserDelegs = append(ud, [3]int64{0, int64(j), 10_000_000}, [3]int64{1, int64(j), 2_000_000}, [3]int64{1, int64(k), 3_000_000})
+					for i := range script {
+						if script[i].K == OpUndelegate {
+							script[i] = Op{}
+						}
+					}
+				}
 			}
 			return g
 		},
